@@ -157,6 +157,17 @@ func storeClasses(addr ssa.Value) []locClass {
 	if pt, ok := addr.Type().Underlying().(*types.Pointer); ok {
 		out = append(out, structFieldClasses(pt.Elem(), 0)...)
 	}
+	// a store to a field also changes what a whole-struct load through a pointer to any enclosing struct sees
+	for a := addr; ; {
+		fa, ok := a.(*ssa.FieldAddr)
+		if !ok {
+			break
+		}
+		if pt, ok := fa.X.Type().Underlying().(*types.Pointer); ok {
+			out = append(out, locClass("T:"+shortType(pt.Elem())))
+		}
+		a = fa.X
+	}
 	return out
 }
 
